@@ -209,9 +209,15 @@ Definition redo_root_move (s : store) (oldroot newroot lsn : N) : store * res un
   | Panic => (s, Panic)
   end.
 
+(* relation.go isSysTable: the catalog tables are read-only for INSERT / UPDATE / DELETE
+   (ErrSysTableReadOnly; classified as EOther) *)
+Definition is_sys_table (name : string) : bool :=
+  String.eqb name pageTableName || String.eqb name schemaTableName.
+
 (* RelationService.Insert: one row *)
 Definition st_insert (s : store) (name : string) (cols : list string) (vals : list value)
   : store * res (list walentry) :=
+  if is_sys_table name then (s, Err EOther) else
   match (do off <- rel_offset s name;
          do _ <- get_tree s off;
          do sch <- rel_schema s name;
@@ -239,6 +245,7 @@ Definition st_insert (s : store) (name : string) (cols : list string) (vals : li
 (* RelationService.Update: the row with id rowid gets the SET values; scans the whole tree *)
 Definition st_update (s : store) (name : string) (rowid : N) (cols : list string) (vals : list value)
   : store * res (list walentry) :=
+  if is_sys_table name then (s, Err EOther) else
   match (do off <- rel_offset s name;
          do t <- get_tree s off;
          do sch <- rel_schema s name;
@@ -268,6 +275,7 @@ Definition st_update (s : store) (name : string) (rowid : N) (cols : list string
 
 (* RelationService.MarkDeleted *)
 Definition st_delete (s : store) (name : string) (rowid : N) : store * res (list walentry) :=
+  if is_sys_table name then (s, Err EOther) else
   match (do off <- rel_offset s name; get_tree s off) with
   | Ok t =>
       match find_cell rowid t with
